@@ -33,6 +33,7 @@ import (
 	"github.com/kubewharf/kubebrain/pkg/backend/tso"
 	"github.com/kubewharf/kubebrain/pkg/metrics"
 	"github.com/kubewharf/kubebrain/pkg/storage"
+	"github.com/kubewharf/kubebrain/pkg/verifhook"
 )
 
 const (
@@ -258,12 +259,14 @@ func (b *backend) collectStorageWriteEvents() {
 			events[cnt] = e
 			cnt++
 			// set watch cache
+			verifhook.Gate("seq.before_cache")
 			b.watchCache.Add(e)
 		}
 
 		if cnt > 0 {
 			evs := make([]*proto.Event, cnt)
 			copy(evs, events[:cnt])
+			verifhook.Gate("seq.before_broadcast")
 			b.watchChan <- evs
 		}
 	}
